@@ -88,6 +88,9 @@ int main(int argc, char** argv) {
         // ---- the train ------------------------------------------------------------------
         {
             vh::set_grid(s.n, s.nb);
+            // one train in five declares one of its buckets (not the last) empty in the filling pattern: "empty buckets change nothing" -
+            // every bucket's cells are transported as they would be alone, whatever the pattern says about their charge
+            if ((c / K_NKINDS) % 5 == 4 && s.nb >= 3) { s.empty_bucket = (int)(c % (s.nb - 1)); M.ev("trains_with_a_bucket_declared_empty"); }
             Built b = build(s, s.nb);
             // a third of the kick cases give the map object a history first: an update in which all bunches (or the trailing ones) had
             // bit-identical fields (all zero, or copies of one block) and one application - what the map does now must not depend on it
@@ -106,6 +109,8 @@ int main(int argc, char** argv) {
                 M.ev("maps_with_an_earlier_update_of_identical_fields");
             }
             std::copy(data.begin(), data.end(), b.in->getData());
+            // another third: the wanted table, then one with rows that are not representable on the grid, then (below) the wanted table again
+            if ((s.kind == K_KICKX || s.kind == K_KICKY) && (c / K_NKINDS) % 3 == 1) { kick_history_through_far_offsets(*b.kick, s.off, s.n, (uint64_t)c); M.ev("kick_maps_with_a_history_through_offsets_beyond_the_grid"); }
             if (s.kind == K_KICKX || s.kind == K_KICKY) { auto o = s.off; b.kick->swapOffset(o); }
             if (s.kind == K_WAKE) { b.in->updateXProjection(); b.wake->update(); }
             if (b.kick) offs.assign(b.kick->getForce(), b.kick->getForce() + (size_t)s.n * s.nb);
